@@ -578,7 +578,8 @@ Definition scaled_of_bits (b : Z) : Z :=
   let mant := Z.land b 4503599627370495 in
   if ex =? 0 then mant else (mant + 4503599627370496) * 2 ^ (ex - 1).
 
-(* ghost log: accepted (item, weight bits) of every update that the specification counts *)
+(* ghost log: accepted (item, weight bits) of every update that the specification counts, most recent first
+   (the oracle reads it as a multiset) *)
 Record full := mkfull { f_sk : fvo; f_log : list (Z * Z) }.
 (* a union and the concatenated logs of the sketches it was given *)
 Record ufull := mkufull { u_un : fvu; u_log : list (Z * Z) }.
@@ -627,9 +628,9 @@ Definition step (s : st) (o e : line) : st * outline :=
           | URefused _ _ => (s, (refused, []))
           | UIgnored _ _ => if chs_ok (chs0 e) then (s, (ok, [])) else (s, (bad_env, []))
           | UOk _ _ s' c' =>
-              if chs_ok c' then (setr s r (mkfull s' (f_log f ++ [(x, wb)])), (ok, []))
+              if chs_ok c' then (setr s r (mkfull s' ((x, wb) :: f_log f)), (ok, []))
               else (s, (bad_env, []))
-          | UThrew _ _ s' => (setr s r (mkfull s' (f_log f ++ [(x, wb)])), (refused, []))
+          | UThrew _ _ s' => (setr s r (mkfull s' ((x, wb) :: f_log f)), (refused, []))
           end
       end
   | 3 :: r :: _ =>                                        (* dump: n k num_samples h r total_wt_r samples ; S: n total log *)
@@ -676,9 +677,9 @@ Definition step (s : st) (o e : line) : st * outline :=
       | Some uf, Some f =>
           let '(u', c', okb) := F_uupdate (u_un uf) (f_sk f) (chs0 e) in
           if okb then
-            if chs_ok c' then (setu s u (mkufull u' (u_log uf ++ f_log f)), (ok, []))
+            if chs_ok c' then (setu s u (mkufull u' (f_log f ++ u_log uf)), (ok, []))
             else (s, (bad_env, []))
-          else (setu s u (mkufull u' (u_log uf ++ f_log f)), (refused, []))
+          else (setu s u (mkufull u' (f_log f ++ u_log uf)), (refused, []))
       | _, _ => (s, (refused, []))
       end
   | 12 :: u :: r2 :: _ =>                                 (* get_result of u into register r2 *)
